@@ -265,11 +265,12 @@ class RPCReplyListener(SessionListener): # internal use
                     del self._id2rpc[id]
 
     def errback(self, err):
-        try:
-            for rpc in self._id2rpc.values():
-                rpc.deliver_error(err)
-        finally:
+        # requests may be registered from other threads while we are at it
+        with self._lock:
+            rpcs = list(self._id2rpc.values())
             self._id2rpc.clear()
+        for rpc in rpcs:
+            rpc.deliver_error(err)
 
 
 class RaiseMode:
